@@ -217,9 +217,11 @@ impl<L: Language> NthChild<L> {
       parent
         .children()
         .filter(|n| n.is_named())
-        .filter_map(|child| {
+        .filter(|child| {
+          // count the sibling itself, not the node of_rule returns (a relational rule
+          // returns the related node)
           let mut scratch = Cow::Borrowed(env.as_ref());
-          rule.match_node_with_env(child, &mut scratch)
+          rule.match_node_with_env(child.clone(), &mut scratch).is_some()
         })
         .collect()
     } else {
